@@ -189,6 +189,7 @@ var clientCtxPool = sync.Pool{
 
 func acquireCtx(req *fasthttp.Request, res *fasthttp.Response) *Ctx {
 	ctx := clientCtxPool.Get().(*Ctx)
+	verifPool("clientctx", ctx, true)
 
 	// Nothing else refers to a Ctx that came out of the pool, so these are
 	// plain writes. A resolve that landed after the last caller stopped reading
@@ -217,6 +218,9 @@ func releaseCtx(ctx *Ctx) {
 
 	ctx.conn.Store(nil)
 
+	if verifPool("clientctx", ctx, false) {
+		return
+	}
 	clientCtxPool.Put(ctx)
 }
 
